@@ -1,6 +1,9 @@
 (* Applying the diff: one round makes the replicated set equal to the primary's, leaves
    everything else alone, and an equal secondary is not written to (property C19). *)
-From Verif Require Import Base.Prelude Repl.Model Repl.Order Repl.WalkProofs.
+From Verif Require Import Base.Prelude.
+From Verif Require Import Repl.Model.
+From Verif Require Import Repl.Order.
+From Verif Require Import Repl.WalkProofs.
 From Coq Require Import Sorting.Sorted Sorting.Permutation.
 
 Section RoundProofs.
